@@ -74,3 +74,16 @@ pub fn decode_parts(
 ) -> Result<RawParts, crate::data::DataDecodingError> {
     crate::decodation::verif_decode_parts(data, raw)
 }
+
+/// Price a given mode path with the planner's cost model (no search, no pruning).
+///
+/// `path` holds `(characters left, mode)` pairs with decreasing `characters left`;
+/// the plan starts in ASCII with nothing written. Returns the number of codewords
+/// (rounded up) the planner assigns to the path, `None` if it can not follow it.
+pub fn price_path(
+    data: &[u8],
+    symbol_list: &crate::SymbolList,
+    path: &[(usize, crate::EncodationType)],
+) -> Option<usize> {
+    crate::encodation::verif_price_path(data, symbol_list, path)
+}
